@@ -142,8 +142,28 @@ def check_source_set(stats, files, main, label, steps):
     return True
 
 
-def two_program_path(stats, files, main):
-    """emboss_front_end --output-file | emboss_codegen_cpp --input-file  vs  embossc."""
+def same_name_import_set(rnd):
+    """A main module and an imported one that define types (and enum values, fields) of the SAME
+    names: canonical names then differ only in their module_file."""
+    names = rnd.sample(["Header", "Kind", "Flags", "Body", "Item"], 3)
+    s1, e1, b1 = names
+
+    def mod(ns, extra=""):
+        return (
+            '[$default byte_order: "LittleEndian"]\n[(cpp) namespace: "%s"]\n' % ns
+            + "enum %s:\n  AA = %d\n  BB = %d\n" % (e1, rnd.randrange(0, 5), rnd.randrange(5, 200))
+            + "bits %s:\n  0 [+4]  UInt  lo\n  4 [+4]  %s  hi\n" % (b1, e1)
+            + "struct %s:\n  0 [+1]  UInt  a\n  1 [+1]  %s  k\n  2 [+1]  %s  b\n  let twice = a * 2\n%s" % (s1, e1, b1, extra)
+        )
+
+    main = 'import "o.emb" as o\n' + mod("vm::main", "  4 [+3]  o.%s  other\n  if other.k == o.%s.AA:\n    8 [+1]  o.%s  ob\n  let ot = other.twice + o.%s.twice\n" % (s1, e1, b1, s1)).replace("let twice = a * 2", "let twice = 7")
+    other = mod("vm::other").replace("let twice = a * 2", "let twice = 9")
+    return {"m.emb": main, "o.emb": other}, "m.emb"
+
+
+def two_program_path(stats, files, main, options=()):
+    """emboss_front_end --output-file | emboss_codegen_cpp --input-file  vs  embossc (same options)."""
+    options = list(options)
     d = tempfile.mkdtemp(prefix="verif_c18_")
     try:
         for name, text in files.items():
@@ -154,10 +174,10 @@ def two_program_path(stats, files, main):
         env = dict(os.environ, PYTHONPATH=emb.REPO)
         py = sys.executable
         a = subprocess.run([py, "-m", "compiler.front_end.emboss_front_end", "--import-dir", d, "--output-file", os.path.join(d, "ir.json"), main], cwd=d, env=env, capture_output=True, text=True, timeout=600)
-        b = subprocess.run([py, "-m", "compiler.back_end.cpp.emboss_codegen_cpp", "--input-file", os.path.join(d, "ir.json"), "--output-file", os.path.join(d, "two.h")], cwd=d, env=env, capture_output=True, text=True, timeout=600)
-        c = subprocess.run([py, os.path.join(emb.REPO, "embossc"), "--import-dir", d, "--output-path", d, "--output-file", "one.h", main], cwd=d, env=env, capture_output=True, text=True, timeout=600)
-        case = {"files": files, "main": main, "step": "cli"}
-        stats.case(["cli", files, main], True, ["cli-two-program"], sample=None)
+        b = subprocess.run([py, "-m", "compiler.back_end.cpp.emboss_codegen_cpp", "--input-file", os.path.join(d, "ir.json"), "--output-file", os.path.join(d, "two.h")] + options, cwd=d, env=env, capture_output=True, text=True, timeout=600)
+        c = subprocess.run([py, os.path.join(emb.REPO, "embossc"), "--import-dir", d, "--output-path", d, "--output-file", "one.h"] + options + [main], cwd=d, env=env, capture_output=True, text=True, timeout=600)
+        case = {"files": files, "main": main, "step": "cli", "options": options}
+        stats.case(["cli", files, main, options], True, ["cli-two-program"] + ["option:" + o for o in options], sample=None)
         if a.returncode or b.returncode or c.returncode:
             if not (a.returncode and c.returncode):
                 stats.fail({"kind": "cli-exit-codes"}, case, "front=%d back=%d embossc=%d\n%s\n%s\n%s" % (a.returncode, b.returncode, c.returncode, a.stderr[-500:], b.stderr[-500:], c.stderr[-500:]))
@@ -190,7 +210,10 @@ def shard(idx, seed, n, cli_n, all_steps):
 
     def body(case_seed):
         rnd = random.Random(case_seed)
-        if rnd.random() < 0.25:
+        if rnd.random() < 0.12:
+            files, main = same_name_import_set(rnd)
+            label = "same-name-import"
+        elif rnd.random() < 0.25:
             files, main = {"m.emb": rnd.choice(emb.test_snippets())}, "m.emb"
             label = "test-snippet"
         elif semgen is not None and rnd.random() < 0.7:
@@ -205,13 +228,13 @@ def shard(idx, seed, n, cli_n, all_steps):
         ok = check_source_set(stats, files, main, label, steps)
         if ok and label != "corpus" and count[0] < cli_n:
             count[0] += 1
-            two_program_path(stats, files, main)
+            two_program_path(stats, files, main, [(), ("--no-cc-enum-traits",), ("--cc-enum-traits",)][(idx + count[0]) % 3])
 
     vlib.hyp_run(st.integers(0, 2**63), body, n, seed=seed * 1039 + idx)
     if idx < cli_n:
         files, main = sets[(seed + idx * 7) % len(sets)]
         if check_source_set(vlib.Stats(), files, main, "corpus", [None]):
-            two_program_path(stats, files, main)
+            two_program_path(stats, files, main, [(), ("--no-cc-enum-traits",), ("--cc-enum-traits",)][idx % 3])
     return stats
 
 
@@ -229,7 +252,7 @@ def replay(ctx, data):
     c = data["case"]
     st_ = vlib.Stats()
     if c.get("step") == "cli":
-        two_program_path(st_, c["files"], c["main"])
+        two_program_path(st_, c["files"], c["main"], c.get("options", ()))
     else:
         check_source_set(st_, c["files"], c["main"], "replay", [c["step"]])
     for f in st_.failures[:5]:
